@@ -267,6 +267,16 @@ func (h1) Decode(raw json.RawMessage) (any, error) {
 	return &c, err
 }
 
+// Ties: f1's own progress schedule switches from 1 s to 10 s ticks after exactly one minute, i.e. at the same
+// simulated instant as the 60th one-second tick, and both timers feed one select of the progress runner. The
+// order of two timers due at the same instant is the one thing the simulator does not control (DESIGN §2.3):
+// runs that reach the one-minute mark are explored and judged (the oracles do not depend on that order) but are
+// excluded from the replay-exactness accounting.
+func (h1) Ties(cfg any) bool {
+	c := cfg.(*H1Cfg)
+	return c.MaxDurationNs >= int64(59*time.Second)
+}
+
 func (h1) Describe(cfg any) string {
 	c := cfg.(*H1Cfg)
 	return fmt.Sprintf("H1 %s/%s c=%d maxdur=%s maxiter=%d flags=%v cancel=%s/%d plans=%d", c.Driver, c.Mode, c.Concurrency,
